@@ -1,1 +1,112 @@
-def hello := "world"
+/-
+  Bytes and fixed-width integers.  Scalars are modelled as bit patterns (`Nat < 256^w`): signedness
+  and float-ness do not exist on the wire.  Core Lean only (the driver links this file).
+-/
+namespace FinProto
+
+abbrev Bytes := List UInt8
+
+inductive Endian | be | le
+  deriving DecidableEq, Repr, Inhabited
+
+/-- little-endian rendering of `n` in exactly `w` bytes (high bits are dropped, as Go's `T(n)` does) -/
+def toLE : Nat → Nat → Bytes
+  | 0, _ => []
+  | w+1, n => UInt8.ofNat n :: toLE w (n / 256)
+
+def toBE (w n : Nat) : Bytes := (toLE w n).reverse
+
+def ofLE : Bytes → Nat
+  | [] => 0
+  | b :: bs => b.toNat + 256 * ofLE bs
+
+def ofBE (bs : Bytes) : Nat := ofLE bs.reverse
+
+def toE : Endian → Nat → Nat → Bytes
+  | .le, w, n => toLE w n
+  | .be, w, n => toBE w n
+
+def ofE : Endian → Bytes → Nat
+  | .le, bs => ofLE bs
+  | .be, bs => ofBE bs
+
+theorem u8_toNat_ofNat (n : Nat) : (UInt8.ofNat n).toNat = n % 256 := by simp
+
+@[simp] theorem toLE_length (w n : Nat) : (toLE w n).length = w := by
+  induction w generalizing n with
+  | zero => rfl
+  | succ w ih => simp [toLE, ih]
+
+@[simp] theorem toBE_length (w n : Nat) : (toBE w n).length = w := by simp [toBE]
+
+@[simp] theorem toE_length (e : Endian) (w n : Nat) : (toE e w n).length = w := by
+  cases e <;> simp [toE]
+
+theorem ofLE_lt (bs : Bytes) : ofLE bs < 256 ^ bs.length := by
+  induction bs with
+  | nil => simp [ofLE]
+  | cons b bs ih =>
+    have hb : b.toNat < 256 := b.toNat_lt
+    simp only [ofLE, List.length_cons, Nat.pow_succ]
+    omega
+
+theorem ofLE_toLE (w n : Nat) : ofLE (toLE w n) = n % 256 ^ w := by
+  induction w generalizing n with
+  | zero => simp [toLE, ofLE, Nat.mod_one]
+  | succ w ih =>
+    simp only [toLE, ofLE, ih, u8_toNat_ofNat]
+    rw [Nat.pow_succ, Nat.mul_comm (256 ^ w) 256, Nat.mod_mul]
+
+theorem toLE_ofLE (bs : Bytes) : toLE bs.length (ofLE bs) = bs := by
+  induction bs with
+  | nil => rfl
+  | cons b bs ih =>
+    have hb : b.toNat < 256 := b.toNat_lt
+    simp only [List.length_cons, toLE, ofLE]
+    have h1 : (b.toNat + 256 * ofLE bs) / 256 = ofLE bs := by omega
+    have h2 : UInt8.ofNat (b.toNat + 256 * ofLE bs) = b := by
+      apply UInt8.toNat_inj.mp
+      simp only [u8_toNat_ofNat]
+      omega
+    rw [h1, h2, ih]
+
+theorem ofE_toE (e : Endian) (w n : Nat) : ofE e (toE e w n) = n % 256 ^ w := by
+  cases e <;> simp [ofE, toE, ofBE, toBE, ofLE_toLE]
+
+theorem ofE_toE_of_lt (e : Endian) (w n : Nat) (h : n < 256 ^ w) : ofE e (toE e w n) = n := by
+  rw [ofE_toE, Nat.mod_eq_of_lt h]
+
+theorem toE_ofE (e : Endian) (bs : Bytes) : toE e bs.length (ofE e bs) = bs := by
+  cases e with
+  | le => exact toLE_ofLE bs
+  | be =>
+    simp only [toE, ofE, toBE, ofBE]
+    have := toLE_ofLE bs.reverse
+    rw [List.length_reverse] at this
+    rw [this, List.reverse_reverse]
+
+theorem ofE_lt (e : Endian) (bs : Bytes) : ofE e bs < 256 ^ bs.length := by
+  cases e with
+  | le => exact ofLE_lt bs
+  | be => simpa [ofE, ofBE] using ofLE_lt bs.reverse
+
+/-- the two byte orders differ exactly by reversing each integer's bytes (C03) -/
+theorem toE_le_eq_reverse_be (w n : Nat) : toE .le w n = (toE .be w n).reverse := by
+  simp [toE, toBE]
+
+theorem toE_mod (e : Endian) (w n : Nat) : toE e w (n % 256 ^ w) = toE e w n := by
+  have h : toLE w (n % 256 ^ w) = toLE w n := by
+    induction w generalizing n with
+    | zero => rfl
+    | succ w ih =>
+      simp only [toLE]
+      have h1 : UInt8.ofNat (n % 256 ^ (w + 1)) = UInt8.ofNat n := by
+        apply UInt8.toNat_inj.mp
+        simp only [u8_toNat_ofNat]
+        rw [Nat.pow_succ, Nat.mul_comm, Nat.mod_mul_right_mod]
+      have h2 : n % 256 ^ (w + 1) / 256 = (n / 256) % 256 ^ w := by
+        rw [Nat.pow_succ, Nat.mul_comm, Nat.mod_mul_right_div_self]
+      rw [h1, h2, ih]
+  cases e <;> simp [toE, toBE, h]
+
+end FinProto
